@@ -184,7 +184,19 @@ pub fn run_c02(tier: Tier) -> ! {
         acc.add("soundness after aborted frames", &cfg, ex);
     }
     acc.counts.require(&["frames delivered", "frames rejected", "in-frame restarts", "start sequences detected"]);
-    let cov = acc.coverage(golden, RULE);
+    let mut cov = acc.coverage(golden, RULE);
+    if let Ok(path) = std::env::var("XCHECK_JSON") {
+        // written by /verif/xcheck (stateright 0.31 BFS over the same transition relation)
+        match std::fs::read_to_string(&path).ok().and_then(|t| crate::json::parse(&t).ok()) {
+            Some(j) => {
+                if j.get("all_equal") != Some(&J::Bool(true)) {
+                    crate::report::machinery("stateright cross-check: state counts differ from E1's");
+                }
+                cov.put("stateright_crosscheck", j);
+            }
+            None => crate::report::machinery("stateright cross-check: result file unreadable"),
+        }
+    }
     finish_e1(&ctx, cov, assumptions(), acc.tally)
 }
 
@@ -203,7 +215,7 @@ pub fn run_c05_c17(prop: &'static str, tier: Tier) -> ! {
     acc.absorb_golden(&report);
     let wrap_phase = std::env::var("VERIF_PHASE").as_deref() == Ok("wrap");
     if !wrap_phase {
-        let dv = tier.pick(6, 8);
+        let dv = tier.pick(6, 7);
         let df = tier.pick(5, 7);
         for (kind, depth) in [
             (BufKind::Vec, dv),
@@ -573,18 +585,18 @@ pub fn run_c08(tier: Tier) -> ! {
         if kind == BufKind::Arr(1) {
             roots.push(vec![Sym::Esc, Sym::Som, Sym::B(0x55), Sym::B(0x55)]);
         }
-        let cfg = Cfg { alphabet: plain_bytes(), depth: tier.pick(16, 24), roots, idle_only: true, ..base_cfg("C08", kind, 0, report.clone(), &ctx) };
+        let cfg = Cfg { alphabet: plain_bytes(), depth: tier.pick(24, 40), roots, idle_only: true, ..base_cfg("C08", kind, 0, report.clone(), &ctx) };
         let ex = explore(&cfg, &ctx);
         acc.add("idle-phase exploration: every noise string over the byte classes", &cfg, ex);
     }
     // general exploration (in-frame restarts, frames after errors) reporting the C08 classes
     {
-        let cfg = base_cfg("C08", BufKind::Vec, tier.pick(6, 8), report.clone(), &ctx);
+        let cfg = base_cfg("C08", BufKind::Vec, tier.pick(6, 7), report.clone(), &ctx);
         let ex = explore(&cfg, &ctx);
         acc.add("all operations", &cfg, ex);
     }
     // (b) black box: idle histories x admissible noise x frame
-    let k = tier.pick(4u32, 6);
+    let k = tier.pick(5u32, 7);
     let nh = histories().len();
     let sigma: Vec<u8> = plain_bytes().iter().map(|s| if let Sym::B(b) = s { *b } else { 0 }).collect();
     let nnoise = crate::e2::count_upto(6, k);
@@ -623,7 +635,7 @@ pub fn run_c08(tier: Tier) -> ! {
         acc.counts.merge(&c);
     }
     // (c) cut-off frames
-    let np = crate::e2::count_upto(5, tier.pick(4, 5));
+    let np = crate::e2::count_upto(5, tier.pick(5, 7));
     let parts = par_chunks(np, 16, |a, b| {
         let mut t = Tally::new();
         let mut c = Counts::default();
@@ -781,9 +793,9 @@ pub fn run_c14(tier: Tier) -> ! {
     let mut acc = Acc::new();
     acc.golden = gf;
     acc.absorb_golden(&["C14"]);
-    let dv = tier.pick(6, 8);
+    let dv = tier.pick(6, 7);
     let df = tier.pick(5, 6);
-    let dcont = tier.pick(2, 3);
+    let dcont = 2;
     let alpha = cont_alphabet();
     let mut total_pairs = 0u64;
     let mut closed = 0u64;
@@ -811,7 +823,8 @@ pub fn run_c14(tier: Tier) -> ! {
                 let (_snap, path) = &bounds[i as usize];
                 let (n, _) = rebuild(kind, path);
                 // deeper continuations for boundaries found close to the root
-                let d = if tier == Tier::Thorough && path.len() + 2 <= depth { dcont + 1 } else { dcont };
+                // thorough: one symbol more for the boundaries found up to the quick tier's depth
+                let d = if tier == Tier::Thorough && path.len() + 1 <= depth { dcont + 1 } else { dcont };
                 for adapt_lhs in [true, false] {
                     let p = Pair { l: n.dec.dup(), r: new_dec(kind) };
                     let mut found = vec![];
